@@ -15,9 +15,11 @@ import (
 	"sync/atomic"
 
 	"google.golang.org/protobuf/types/known/structpb"
+	kerrors "k8s.io/apimachinery/pkg/api/errors"
 	"k8s.io/apimachinery/pkg/apis/meta/v1/unstructured"
 	"k8s.io/apimachinery/pkg/runtime"
 	"k8s.io/apimachinery/pkg/runtime/schema"
+	"k8s.io/apimachinery/pkg/util/validation/field"
 
 	fnv1 "github.com/crossplane/crossplane/apis/apiextensions/fn/proto/v1"
 	v1 "github.com/crossplane/crossplane/apis/apiextensions/v1"
@@ -234,6 +236,10 @@ func baseScenarios() []scenario {
 			Phases: []phase{{}, {UserDelete: []string{"a"}}}},
 		{Name: "pipe-user-deletes-composed-provider", Mode: "pipeline", Steps: 1, Provider: true,
 			Phases: []phase{{Desired: []resSpec{a, b}}, {Desired: []resSpec{a, b}, UserDelete: []string{"a"}}}},
+		// the function asks for a value of an EXISTING composed resource that the API server rejects as
+		// invalid (422), and later for a valid one again: the resource stays the XR's, referenced
+		{Name: "pipe-invalid-update-then-valid", Mode: "pipeline", Steps: 1, Phases: []phase{{Desired: []resSpec{a, b, c}},
+			{Desired: []resSpec{{Name: "a", Kind: "NopA", Val: "invalid"}, b, c}}, {Desired: []resSpec{{Name: "a", Kind: "NopA", Val: "5"}, b, c}}}},
 		{Name: "pipe-fixed2", Mode: "pipeline", Steps: 1, Phases: []phase{{Desired: []resSpec{a, b}}}},
 		{Name: "pipe-grow", Mode: "pipeline", Steps: 1, Phases: []phase{{Desired: []resSpec{a}}, {Desired: []resSpec{a, b, c}}}},
 		{Name: "pipe-shrink", Mode: "pipeline", Steps: 1, Phases: []phase{{Desired: []resSpec{a, b, c}}, {Desired: []resSpec{a}}}},
@@ -377,6 +383,13 @@ func (r *runner) install(sc *scenario) {
 func (r *runner) buildWorld(sc *scenario, seed uint64) (*sim.World, map[string]any) {
 	w := sim.NewWorld(xrk.Scheme(), seed)
 	w.SetKind(schema.GroupKind{Group: "nop.ex.org", Kind: "NsThing"}, sim.KindInfo{Namespaced: true})
+	w.AddAdmission(func(_ *sim.World, req *sim.AdmitRequest) error {
+		if req.Key.Group == "nop.ex.org" && req.Operation != "DELETE" && sim.Str(req.New, "spec", "forProvider", "v") == "invalid" {
+			return kerrors.NewInvalid(schema.GroupKind{Group: req.Key.Group, Kind: req.Key.Kind}, req.Key.Name,
+				field.ErrorList{field.Invalid(field.NewPath("spec", "forProvider", "v"), "invalid", "scripted admission: invalid value")})
+		}
+		return nil
+	})
 	xrd := xrk.XRDObject(xrk.XRDOpts{Group: "ex.org", Kind: "XThing", Plural: "xthings"})
 	w.MustSeed("user", xrd)
 	if sc.Mode == "pipeline" {
